@@ -36,6 +36,13 @@ var c14Programs = []string{
 	// the empty program, and a program that replaces $ (what -o then writes; selectors that select nothing real)
 	``,
 	`{ $ = 7; print $ }`,
+	// programs of BEGIN rules only (with stdin, with -o, with malformed input); exit in BEGINFILE under -o; an inline program
+	// that begins and ends with a quote character
+	`BEGIN { print "only begin" }`,
+	`BEGINFILE { print "skip"; exit } { print }`,
+	`'a' != 'b' || $ == 'q'`,
+	// a document changed by methods only (no assignment anywhere), then written
+	`BEGINFILE { if ($ is array) { $.push(4) } } { if ($ is array) { $.pop() } }`,
 	// the program text is taken byte for byte: line ends inside literals, lone carriage returns, no final newline
 	"BEGIN { s = \"a\r\nb\r\n\"; print s.length(), s.split(\"\r\n\").length(), 'x\ry'.length() }\r\n{ print }\r\n",
 	"# header\r\n{ print \"p\n\rq\".length(), \"tab\there\", \"é\" ~ /é\r?/ } # no final newline",
@@ -56,7 +63,7 @@ var c14ProgramsMore = []string{
 	`BEGIN { print "only begin" }`,
 }
 
-var c14Inputs = []string{`[1,2]`, `{"a":[3],"b":{"c":1}}`, `5`, "[1]\n{\"a\":2,\"b\":3}", ``, `[1,`, `{"a":["100% %s %d","%v"],"b":{"50%":"a%20b"}}`, "\xef\xbb\xbf[1,2]"}
+var c14Inputs = []string{"[\"caf\xef\xbb\xbfbar\", {\"k\xef\xbb\xbf\": \"\\ufeff\"}]", `[1,2]`, `{"a":[3],"b":{"c":1}}`, `5`, "[1]\n{\"a\":2,\"b\":3}", ``, `[1,`, `{"a":["100% %s %d","%v"],"b":{"50%":"a%20b"}}`, "\xef\xbb\xbf[1,2]"}
 var c14InputsMore = []string{`null`, `{"a":{"a":[]},"b":"s"}`, "1 2 3\n", `[[1,2],[3]]`, `]`, `{"a":1e400}`}
 
 var c14Selectors = [][]string{nil, {"$.a"}, {"$.a", "$.b"}, {"$.a.nope()"}, {"$[5]"}}
@@ -82,6 +89,7 @@ const (
 	c14OutDash
 	c14OutFile
 	c14OutBad
+	c14OutInput // -o names the (only) input file itself: the document is read before it is replaced
 	c14NOut
 )
 
@@ -195,6 +203,12 @@ func c14Check(c *fw.Ctx, s c14Spec, al c14Alpha) *fw.Violation {
 		argv = append(argv, "-o", outPath)
 	case c14OutBad:
 		argv = append(argv, "-o", filepath.Join(dir, "no-such-dir", "out.json"))
+	case c14OutInput:
+		if s.Source != c14OneFile {
+			return nil
+		}
+		outPath = filepath.Join(dir, "in1.json")
+		argv = append(argv, "-o", outPath)
 	}
 	if s.DashF {
 		pf := filepath.Join(dir, "prog.jqawk")
@@ -344,6 +358,16 @@ func c14Check(c *fw.Ctx, s c14Spec, al c14Alpha) *fw.Violation {
 	if !eitherExit && (got.Exit == 0) != wantExit0 {
 		return fail("exit status does not reflect the outcome", map[string]any{"exit 0": wantExit0, "library": lib})
 	}
+	if s.Out == c14OutInput {
+		b, err := os.ReadFile(outPath)
+		if haveJSON {
+			if err != nil || string(b) != wantJSON {
+				return fail("-o onto the input file: the file does not hold the JSON output afterwards", map[string]any{"file": string(b), "want": wantJSON})
+			}
+		} else if err != nil || (string(b) != input && !eitherExit) {
+			return fail("-o onto the input file: nothing was to be written, yet the input file has changed", map[string]any{"file": string(b), "want": input})
+		}
+	}
 	if s.Out == c14OutFile {
 		b, err := os.ReadFile(outPath)
 		if haveJSON {
@@ -400,7 +424,7 @@ func c14SelectorConcat(c *fw.Ctx, prog, input, e1, e2 string) *fw.Violation {
 func init() {
 	register(&fw.Prop{
 		ID: "C14",
-		Rule: "the full product {inline, -f} x {stdin, one file, two files, a missing file last / first / between readable ones, a directory as file, the same file twice, /dev/stdin as a named file, a named pipe filled after it is opened, a /proc file whose reported size is 0} x {no selector, one, two, a failing one, an index past the end} x {no -o, -o -, -o FILE, -o into a missing directory} x 17 programs (printf without a final newline, empty, replacing $, silent, printing, mutating $, BEGINFILE replacing $, exit, syntax error, runtime error before / after output, $file, END, exit in BEGIN, state across values, CR LF / lone CR / LF CR inside literals and between statements) x 8 inputs (array, object, scalar, two values, empty, malformed, strings full of % directives, a byte order mark before the document), on the real binary; " +
+		Rule: "the full product {inline, -f} x {stdin, one file, two files, a missing file last / first / between readable ones, a directory as file, the same file twice, /dev/stdin as a named file, a named pipe filled after it is opened, a /proc file whose reported size is 0} x {no selector, one, two, a failing one, an index past the end} x {no -o, -o -, -o FILE, -o into a missing directory, -o onto the input file} x 21 programs (programs of BEGIN rules only, exit in BEGINFILE, a program that begins and ends with a quote, a document changed by methods only, printf without a final newline, empty, replacing $, silent, printing, mutating $, BEGINFILE replacing $, exit, syntax error, runtime error before / after output, $file, END, exit in BEGIN, state across values, CR LF / lone CR / LF CR inside literals and between statements) x 9 inputs (U+FEFF inside a string and a key, array, object, scalar, two values, empty, malformed, strings full of % directives, a byte order mark before the document), on the real binary; " +
 			"oracle: the in-process library run of the same program, selectors and inputs (stdout, outcome, JSON output) plus the wrapper laws (exit 0 iff success and nothing refused, diagnostic on stderr otherwise, no stack trace, -o FILE == bytes of -o -, a missing file refused before any output); " +
 			"-r E1 -r E2 == -r E1 followed by -r E2 for 4 stateless (mutating) programs x 2 documents x all ordered pairs of 5 overlapping selectors; and -r E == BEGINFILE { $ = E } for every program without BEGINFILE/ENDFILE x every input x 12 selectors (three end in an index past the end or under a missing member, three call num / json / a method); thorough doubles the three alphabets; a state is (source, -o mode, selector list, -f, library outcome); non-trivial = same",
 		Plan:        func(t fw.Tier) int { return 2 * c14NSource * c14NOut },
